@@ -390,7 +390,7 @@ Qed.
 (* consequently: whenever the implementation's observation equals the model's, the only way the judge can fail is the TESTED
    part (verification under another message / key, structure check of derived keys) *)
 Definition tested_verdict (c : case) : verdict :=
-  if stmt_tested c (model_obs P c) then Holds
+  if stmt_tested P c (model_obs P c) then Holds
   else if known_class P c =? 0 then FailsUnknown else FailsKnown (known_class P c).
 
 Theorem judge_on_model c : case_wf c -> judge P c (model_obs P c) = tested_verdict c.
@@ -402,7 +402,7 @@ Qed.
 (* sequences: the model of a sequence is made of the models of the steps taken alone (purity), and the judge of a sequence
    accepts it when it accepts every step *)
 Theorem judge_seq_on_model l : Forall case_wf l ->
-  forallb (fun c => stmt_tested c (model_obs P c)) l = true -> judge_seq P l (model_seq P l) = Holds.
+  forallb (fun c => stmt_tested P c (model_obs P c)) l = true -> judge_seq P l (model_seq P l) = Holds.
 Proof.
   induction 1 as [|c l Hc _ IH]; [reflexivity|].
   cbn [model_seq map judge_seq forallb]. intros T. apply andb_true_iff in T as [T1 T2].
